@@ -1460,6 +1460,8 @@ func enumeration(run *report.Run, plan enumPlan) {
 		run.Max("enum_max_depth", int64(b.Depth))
 	}
 	run.Note("enumeration_bounds", bounds)
+	run.Note("enumeration_method", "depth-first over the alphabet; every node = one sequence whose last operation is applied under the result oracle + full monitor (Available, every block's pattern / length / address range / disjointness, out-of-range probes, reopen on a copy of the bytes). The state before an operation is re-established from a snapshot (Blocks struct value incl. hint index and counter, buffer bytes, model) instead of re-running the prefix; a violation is reported only after the reference execution (fresh allocator, every step monitored) reproduced it")
+	run.Note("reopen_probe_forms", "literal: FreeBlock on every index of the reopened copy (nil = allocated, ErrNotExist = free) — used at enumeration nodes of depth <= 4, every 16th full check of walks with a full check every < 100 operations, every full check otherwise; cheap: FreeBlock of the model's allocated indices must return nil, then ArrangeBlock must hand out every index exactly once before ErrExhausted — same decision without constructing an error per free block")
 	run.Add("enumerated_sequences", total)
 	run.Add("enumerated_model_states", int64(len(states)))
 	for k := range states {
@@ -1557,6 +1559,12 @@ func runWalk(w witness, visit func(tclass), cnt map[string]int64) (v *vio, failA
 		target := targets[ti%len(targets)]
 		if m.n == target && !reached {
 			reached = true
+			if cnt != nil {
+				cnt["walk_target_levels_reached"]++
+				if target == count {
+					cnt["walk_reached_100_percent"]++
+				}
+			}
 			if v, herr := fullCheck(fmt.Sprintf("reaching level %d", target)); v != nil || herr != nil {
 				return v, step, herr
 			}
@@ -1635,6 +1643,9 @@ func runWalk(w witness, visit func(tclass), cnt map[string]int64) (v *vio, failA
 		switch o.K {
 		case opArrange:
 			touched, v = m.arrange()
+			if cnt != nil && touched < 0 && v == nil {
+				cnt["walk_arrange_exhausted"]++
+			}
 		case opFree:
 			v = m.free(o.I)
 		case opBlock:
@@ -2024,7 +2035,7 @@ func concCases(run *report.Run, heavy bool) []witness {
 	iter := 20_000
 	if heavy {
 		gs = []int{8, 12, 16}
-		iter = run.Pick(8_000, 150_000)
+		iter = run.Pick(8_000, 100_000)
 	} else if run.Thorough() {
 		iter = 100_000
 	}
@@ -2101,7 +2112,7 @@ func TestCheck(t *testing.T) {
 	defer func() { run.Note("phase_wall_s", phases) }()
 	geometrySweep(run)
 	lap("geometry")
-	plan := enumPlan{maxDepth: 8, emptyDepth: func(int, int) int { return 8 }, leafCap: 300_000}
+	plan := enumPlan{maxDepth: 8, emptyDepth: func(int, int) int { return 8 }, leafCap: 150_000}
 	if run.Thorough() {
 		plan = enumPlan{maxDepth: 11, leafCap: 2_000_000, emptyDepth: func(bs, segs int) int {
 			switch {
